@@ -74,6 +74,8 @@ def build_and_validate_headers(headers: Iterable[Tuple[bytes, bytes]]) -> List[T
             # Note bytes(5) is five NUL bytes, not an error
             raise TypeError("Header names and values must be bytes")
         name, value = bytes(name), bytes(value)
+        if name.strip() == b"":
+            raise ValueError("Header names must not be empty")
         if name.strip()[:1] == b":":
             # Judged as it will be sent (see the strip below)
             raise ValueError("Pseudo headers are not valid")
